@@ -1,4 +1,5 @@
 /* Correspondence harness for the buffer group: byte buffer (C18), ring buffer (C19). */
+#define HARNESS_NOISE
 #include "common.h"
 
 #include <ufw/byte-buffer.h>
@@ -214,6 +215,32 @@ rb_op(int argc, char **argv)
         return;
     }
     rb_view(ret);
+}
+
+/* a second byte buffer and a second ring, used between the operations on the objects under test */
+static void
+harness_noise(void)
+{
+    static unsigned char m[5];
+    static ByteBuffer sb;
+    static octet_ring sr;
+    static uint8_t sd[3];
+    static unsigned k;
+    if (k == 0) {
+        byte_buffer_space(&sb, m, sizeof m);
+        octet_ring_init(&sr, sd, 3);
+        octet_ring_override_if_full(&sr, true);
+    }
+    unsigned char d[2] = { 1, (unsigned char)k }, o[3];
+    if (byte_buffer_add(&sb, d, 2) < 0) byte_buffer_reset(&sb);
+    (void)byte_buffer_consume_at_most(&sb, o, 1 + k % 3);
+    if (k % 3 == 0) byte_buffer_rewind(&sb);
+    octet_ring_put(&sr, (uint8_t)k);
+    if (k % 4 == 0) (void)octet_ring_get(&sr);
+    rb_iter it;
+    octet_ring_iter(&it, &sr, k % 2 ? RING_BUFFER_ITER_NEW_TO_OLD : RING_BUFFER_ITER_OLD_TO_NEW);
+    if (!rb_iter_done(&it)) rb_iter_advance(&it);      /* a traversal that is abandoned after one step */
+    k++;
 }
 
 static void
